@@ -234,6 +234,8 @@ def svd_matrix_roundtrip(q, coding, cap):
         return FAIL('result not well-formed: ' + msg)
     if any(G.shape[2] > max(1, int(cap)) for G in Y[:-1]):
         return FAIL(f'ranks {[G.shape[2] for G in Y[:-1]]} exceed cap {cap}')
+    if not gen.finite(Y):
+        return FAIL('non-finite cores')
     if cap < 1e6:
         return TRIVIAL('cap: structure only')
     T = gen.dense(Y)
